@@ -1035,6 +1035,13 @@ def run(tier):
         for c in cases[1:]:
             res.violation(key, what, {'case': c[0]})
 
+    if built:
+        # end-to-end tie on a sample of the mutants: outcome class, matched nodes, errors and acknowledgement of the real
+        # x12n_document against the composed Lean model (theorem doc_total is about that model)
+        from . import doc as docmod
+        sample = [r[6][0] for r in results if r[6] is not None and r[2] < 20000]
+        random.Random(seed * 31 + 7).shuffle(sample)
+        docmod.attach(res, sample, 'mutants', limit=(400 if tier == 'thorough' else 40))
     res.notes['mutation_kinds'] = dict(sorted(dist_kind.items()))
     res.notes['maps'] = dict(sorted(dist_map.items()))
     res.notes['entry_points'] = dist_entry
